@@ -197,6 +197,32 @@ def classify(mod, case, v, known):
 # Hypothesis worker
 
 
+# The process's local time zone is part of the environment every property quantifies over implicitly: half of the workers run in
+# the ambient zone, the others in zones east and west of Greenwich with and without daylight saving (POSIX TZ strings, which need
+# no zone database).  The zone a failure was found in travels with its replay file.
+LOCAL_ZONES = [None, "NZST-12NZDT,M9.5.0,M4.1.0/3", None, "NST3:30NDT,M3.2.0,M11.1.0", None, "IST-5:30", None, "<-10>10"]
+
+
+def apply_zone(z):
+    """Sets the local time zone of this process; returns the previous TZ value."""
+    old = os.environ.get("TZ")
+    if z is None:
+        return old
+    os.environ["TZ"] = z
+    time.tzset()
+    return old
+
+
+def restore_zone(old, z):
+    if z is None:
+        return
+    if old is None:
+        os.environ.pop("TZ", None)
+    else:
+        os.environ["TZ"] = old
+    time.tzset()
+
+
 def _seed_for(pid, seed, w):
     h = hashlib.sha256(f"{seed}/{pid}/{w}".encode()).digest()
     return int.from_bytes(h[:8], "big")
@@ -215,6 +241,9 @@ def _hyp_worker(args):
         known = load_known(mod.ID)
         strat = mod.strategy(tier)
         hold = {"last": None}
+        zone = LOCAL_ZONES[w % len(LOCAL_ZONES)] if os.environ.get("VERIF_ZONES", "1") != "0" else None
+        apply_zone(zone)
+        st.classes["worker_local_zone:" + (zone or "ambient")] += 1
 
         shrink_budget = float(os.environ.get("VERIF_SHRINK_S", "45" if tier == "quick" else "180"))
         try:  # Hypothesis's own cap on shrinking time (default 300 s); affects only the size of the reported case
@@ -242,7 +271,7 @@ def _hyp_worker(args):
                     st.evals += 1
                     st.classes["excluded_known"] += 1
                     return
-                hold["last"] = {"kind": "case", "case": case, "message": v.msg}
+                hold["last"] = {"kind": "case", "case": case, "message": v.msg, "tz": zone}
                 hold["last_hash"] = case_hash(case)
                 if not hold.get("deadline"):
                     hold["deadline"] = time.time() + shrink_budget
@@ -323,11 +352,15 @@ def run_replay(mod, doc, known):
     """Returns (status, message): status in ok / violation / known:<key>."""
     kind = doc.get("kind", "case")
     case = doc["case"]
+    old_tz = apply_zone(doc.get("tz"))
     try:
-        if kind == "case":
-            mod.run_case(case)
-        else:
-            getattr(mod, "replay_" + kind)(case)
+        try:
+            if kind == "case":
+                mod.run_case(case)
+            else:
+                getattr(mod, "replay_" + kind)(case)
+        finally:
+            restore_zone(old_tz, doc.get("tz"))
     except Violation as v:
         key = classify(mod, case, v, known) if kind == "case" else None
         if key is None and kind != "case":
@@ -345,6 +378,8 @@ def write_replay(pid, tier, seed, failure):
     d = os.path.join(env.VERIF, "replays")
     os.makedirs(d, exist_ok=True)
     body = {"property": pid, "kind": failure.get("kind", "case"), "case": failure["case"], "message": failure.get("message", ""), "tier": tier, "seed": seed}
+    if failure.get("tz"):
+        body["tz"] = failure["tz"]  # the local time zone of the worker that found it
     h = hashlib.sha1(canon(body["case"]).encode()).hexdigest()[:10]
     path = os.path.join(d, f"{pid}-{tier}-{seed}-{h}.json")
     with open(path, "w") as f:
@@ -506,6 +541,7 @@ def _write_evidence(mod, pid, tier, seed, total, wall, nviol, known, error=None)
         "known_findings_listed": sorted(known),
         "notes": total.notes,
         "tree": env.REPO,
+        "environment": "generated cases run in 16 worker processes; every second worker has its local time zone set (TZ + tzset) to one of " + ", ".join(z for z in LOCAL_ZONES if z) + "; the others run in the ambient zone; a failing case's zone is stored in its replay file",
     }
     if getattr(mod, "EXHAUSTIVE_NOTE", None):
         cov["exhaustive_part"] = mod.EXHAUSTIVE_NOTE
